@@ -38,6 +38,7 @@ def run(eng, rep) -> None:
     rep.rule("R02.3", "canonical table reproduces tests/standardized/fcp_tests.json (guards the oracle, not the repo)")
     rep.rule("R02.4", "values merged into the store by a word write are masked to the word's width")
     rep.rule("R02.5", "two's complement sign reconstruction")
+    rep.rule("R02.6", "C++ side (clang AST of requested instantiations): wrapper Encode/Decode grammars == canonical; fcp::Buffer per-bit LSB-first mapping, cursor advance by width, no lossy sub-byte shift")
     rep.assume("struct native 'f'/'d' = IEEE-754 little-endian on the host; ASCII restriction of strings is not checked")
     cc = find_cursor_class(eng)
     pr = Prims(eng, cc)
@@ -75,9 +76,8 @@ def run(eng, rep) -> None:
     r015(eng, sub, disp["dec"], pr)
     for o in sub.obls:
         rep._add(o["verdict"], "R02.5", o["file"], o["function"], o["construct"], o["detail"])
-    if eng.tier == "thorough":
-        from .cpp_codec import run_cpp_wire
-        run_cpp_wire(eng, rep, "R02.6")
+    from .cpp_codec import run_cpp_wire
+    run_cpp_wire(eng, rep, "R02.6")
 
 
 def r024(eng, rep, pr: Prims) -> None:
